@@ -256,7 +256,7 @@ pub fn run(ctx: &Ctx) -> i32 {
     let sup = supported_reps();
     let uns = unsupported_reps();
     let mut longs: Vec<Expr> = vec![];
-    for &n in &[9usize, 17, 33, 63, 64, 65, 66, 69, 100, 127, 128, 129, 130, 191, 192, 193, 255, 256, 257, 300] {
+    for n in 3usize..=300 {
         for (oi, op) in [trees::Op::And, trees::Op::Or, trees::Op::List].into_iter().enumerate() {
             for pos in [0usize, 1, n / 2, 63.min(n - 1), 64.min(n - 1), n - 2, n - 1] {
                 let u = uns[(n + pos + oi) % uns.len()].clone();
